@@ -120,8 +120,12 @@ TSnapshot ==
           [] t = "names" -> S2Set(E.names) # {n \in Names : names[n] # None}
           [] t = "pool" -> \E i \in 1..Len(E.ctls) : E.ctls[i][4] # pool[E.ctls[i][1]]}}
 
+\* directed same-name race: the loser was parked after its name check while the winner registered (OneLivePerName seen from outside)
+TDirected == /\ Ev("drv.namerace.directed") /\ Keep /\ UNCHANGED vars
+             /\ Flag(E.hit => (E.winner_ok /\ ~E.loser_ok /\ ~E.third_ok),
+                     "a second registration of a live name was accepted, or a refused registration freed the incumbent's name")
 TNext ==
-  \/ TReset \/ TSendLogin \/ TSendPing \/ TSendWork \/ TVerify \/ TVerifyStaleRun \/ TMgrAdd \/ TWaitOld \/ TBeforeStart \/ TStart
+  \/ TDirected \/ TReset \/ TSendLogin \/ TSendPing \/ TSendWork \/ TVerify \/ TVerifyStaleRun \/ TMgrAdd \/ TWaitOld \/ TBeforeStart \/ TStart
   \/ TConnClose \/ TTeardownBegin \/ TTeardownDone \/ TMgrDel \/ TExist \/ TNameAdd \/ TNameDel \/ TPing \/ TWork \/ TOffer
   \/ TLoginResp \/ TWorkResult \/ TSnapshot \/ TPong
   \/ Stutter({"ctl.new", "ctl.replaced", "ctl.newproxy.begin", "ctl.newproxy.end", "ctl.exist.pass", "ctl.exist.refuse",
